@@ -451,12 +451,12 @@ package server
 // fsyncs, and swaps the files. Ghost file system: contracts/extern/io.spec.
 //@ ghost macro shrinkName(s) = cat(s.opts.AppendFileName, "-shrink")
 //@ ghost macro bakName(s) = cat(s.opts.AppendFileName, "-bak")
-//@ ghost var shrOld string
-//@ ghost var shrNew string
-//@ ghost var shrPre string
-//@ ghost var curKey string
-//@ ghost var curId string
-//@ ghost var recStar string
+//@ ghost scratch shrOld string
+//@ ghost scratch shrNew string
+//@ ghost scratch shrPre string
+//@ ghost scratch curKey string
+//@ ghost scratch curId string
+//@ ghost scratch recStar string
 //@ ghost var swapping bool
 // the encoder written as the code writes it (accumulator style): head, then every argument, for every command in order
 //@ ghost func encArgsOnto(acc string, v []string, n int) string
@@ -564,3 +564,105 @@ package server
 //@   frame-by-effects
 //@   requires lock == 0
 //@   ensures lock == 0
+
+// ---- fence classification (C05) --------------------------------------------------------
+// Oracle: README "detect" + the property statement. For a static (non-roaming) fence and a SET/FSET of a spatial object
+// whose id passes the fence's MATCH patterns:
+//   in1 / in2 = the old / new object satisfies the fence predicate (spatial test and WHERE/MATCH test of the scan writer)
+//   in->in [inside]; in->out [exit, outside]; out->in [enter, inside] (FSET: [inside]);
+//   out->out [outside], or [cross, outside] (SET only, needs an old object and no spatial hit on either end)
+//   and the messages sent are exactly the labels of that list that DETECT allows, in that order.
+//@ ghost func msgDetect(m string) string
+//@ ghost func msgCommand(m string) string
+//@ ghost func msgKeyOf(m string) string
+//@ ghost func msgHookOf(m string) string
+//@ ghost func tOK(sw ref, o ref) bool
+//@ ghost func fOK(sw ref, o ref) bool
+//@ ghost func mgm(globs []string, id string) bool
+//@ ghost func geoSpatial(g ref) bool
+//@ ghost scratch wbody string
+//@ func makemsg
+//@   assumed
+//@   modifies nothing
+//@   ensures msgDetect(result) == detect && msgCommand(result) == command && msgKeyOf(result) == key && msgHookOf(result) == hookName
+//@ func objIsSpatial
+//@   assumed
+//@   modifies nothing
+//@   ensures result == geoSpatial(obj)
+//@ func multiGlobMatch
+//@   assumed
+//@   modifies nothing
+//@   ensures result == mgm(globs, s)
+//@ func scanWriter.testObject
+//@   assumed
+//@   modifies nothing
+//@   ensures ok == tOK(sw, o)
+//@ func scanWriter.fieldMatch
+//@   assumed
+//@   modifies nothing
+//@   ensures result0 == fOK(sw, o)
+//@ ghost macro fIn(cmd, fence, o) = o != nil && !fence.roam.on && ite(cmd == "within", gWithin(objGeo(o), fence.obj), ite(cmd == "nearby" || cmd == "intersects", gIntersects(objGeo(o), fence.obj), false))
+//@ func fenceMatchObject
+//@   requires fence != nil
+//@   modifies nothing
+//@   ensures result == fIn(fence.cmd, fence, o)
+//@ ghost macro fmIn1(sw, fence, d) = fIn(fence.cmd, fence, d.old) && tOK(sw, d.old)
+//@ ghost macro fmIn2(sw, fence, d) = fIn(fence.cmd, fence, d.obj) && tOK(sw, d.obj)
+//@ ghost macro fmWant(fence, l) = fence.detect == nil || fence.detect[l]
+//@ ghost macro fmBodyOK(sw) = len(wbody) > 0 && (sw.output == outputIDs || ite(wbody[0] == 44, len(wbody) > 1 && wbody[1] == 123, wbody[0] == 123))
+//@ ghost macro fmClassified(sw, fence, d) = d.command != "drop" && d.command != "del" && d.obj != nil && mgm(fence.globs, objID(d.obj)) && geoSpatial(objGeo(d.obj)) && !(d.command == "fset" && sw.nofields) && !fence.roam.on
+//@ ghost macro fmOne(r, fence, l) = len(r) == ite(fmWant(fence, l), 1, 0) && (fmWant(fence, l) ==> msgDetect(r[0]) == l)
+//@ ghost macro fmTwo(r, fence, a, b) = len(r) == ite(fmWant(fence, a), 1, 0) + ite(fmWant(fence, b), 1, 0) && (fmWant(fence, a) ==> msgDetect(r[0]) == a) && (fmWant(fence, b) ==> msgDetect(r[len(r)-1]) == b)
+//@ ghost macro fmCrossPossible(fence, d) = d.old != nil && !fIn(fence.cmd, fence, d.old) && !fIn(fence.cmd, fence, d.obj)
+//@ func fenceMatch
+//@   frame-by-effects
+//@   requires sw != nil && sw.wr != nil && sw.msg != nil && fence != nil && details != nil && sw.s != nil && sw.s.cols != nil
+//@   modifies wbody, steps, perCall
+//@   set-at-call bytes.Buffer.Len#1 wbody = *sw.wr
+//@   ensures [fence-restored] fence.cmd == old(fence.cmd)
+//@   ensures [drop] details.command == "drop" ==> len(result) == 1
+//@   ensures [not-matching] details.command != "drop" && (details.obj == nil || !mgm(fence.globs, objID(details.obj)) || !geoSpatial(objGeo(details.obj)) || (details.command == "fset" && sw.nofields)) ==> len(result) == 0
+//@   ensures [del] details.command == "del" && details.obj != nil && mgm(fence.globs, objID(details.obj)) && geoSpatial(objGeo(details.obj)) ==> len(result) == 1
+//@   ensures [inside-inside] fmClassified(sw, fence, details) && fmIn1(sw, fence, details) && fmIn2(sw, fence, details) && fmBodyOK(sw) ==> fmOne(result, fence, "inside")
+//@   ensures [inside-outside] fmClassified(sw, fence, details) && fmIn1(sw, fence, details) && !fmIn2(sw, fence, details) && fmBodyOK(sw) ==> fmTwo(result, fence, "exit", "outside")
+//@   ensures [outside-inside] fmClassified(sw, fence, details) && !fmIn1(sw, fence, details) && fmIn2(sw, fence, details) && details.command != "fset" && fmBodyOK(sw) ==> fmTwo(result, fence, "enter", "inside")
+//@   ensures [outside-inside.fset] fmClassified(sw, fence, details) && !fmIn1(sw, fence, details) && fmIn2(sw, fence, details) && details.command == "fset" && fmBodyOK(sw) ==> fmOne(result, fence, "inside")
+//@   ensures [outside-outside.fset] fmClassified(sw, fence, details) && !fmIn1(sw, fence, details) && !fmIn2(sw, fence, details) && details.command == "fset" && fmBodyOK(sw) ==> fmOne(result, fence, "outside")
+//@   ensures [outside-outside.filtered] fmClassified(sw, fence, details) && !fmIn1(sw, fence, details) && !fmIn2(sw, fence, details) && details.command != "fset" && !fOK(sw, details.obj) ==> len(result) == 0
+//@   ensures [outside-outside] fmClassified(sw, fence, details) && !fmIn1(sw, fence, details) && !fmIn2(sw, fence, details) && details.command != "fset" && fOK(sw, details.obj) && fmBodyOK(sw) ==> fmOne(result, fence, "outside") || (fmCrossPossible(fence, details) && fmTwo(result, fence, "cross", "outside"))
+//@   ensures [labelled] fmClassified(sw, fence, details) && fmBodyOK(sw) ==> forall(i, 0, len(result), msgCommand(result[i]) == details.command && msgKeyOf(result[i]) == details.key && msgHookOf(result[i]) == hookName)
+//@   loop 1 invariant fence != nil && fence.cmd == old(fence.cmd)
+//@   loop 1 invariant !fence.roam.on && fmIn1(sw, fence, details) && fmIn2(sw, fence, details) ==> detect == "inside"
+//@   loop 1 invariant !fence.roam.on && fmIn1(sw, fence, details) && !fmIn2(sw, fence, details) ==> detect == "exit" || (detect == "outside" && !fmWant(fence, "exit"))
+//@   loop 1 invariant !fence.roam.on && !fmIn1(sw, fence, details) && fmIn2(sw, fence, details) && details.command != "fset" ==> detect == "enter" || (detect == "inside" && !fmWant(fence, "enter"))
+//@   loop 1 invariant !fence.roam.on && !fmIn1(sw, fence, details) && fmIn2(sw, fence, details) && details.command == "fset" ==> detect == "inside"
+//@   loop 1 invariant !fence.roam.on && !fmIn1(sw, fence, details) && !fmIn2(sw, fence, details) ==> detect == "outside" || (detect == "cross" && fmCrossPossible(fence, details) && details.command != "fset")
+//@   loop 1 invariant !fence.roam.on && !fmIn1(sw, fence, details) && !fmIn2(sw, fence, details) && details.command != "fset" ==> fOK(sw, details.obj)
+//@   loop 1 invariant fence.roam.on ==> detect == "roam"
+
+// ---- replacing a hook keeps no stale registry entries (C05 candidates, C14 hook expiry) ----
+// When SETHOOK/SETCHAN replaces an existing hook, the *old* hook object leaves every registry it was in: the decision
+// to remove it from the expiry queue / the cross-detection index must be taken from the old hook's own attributes.
+// (assumed frames: these touch only the hook object itself / the group tables)
+//@ func Hook.Equals
+//@   assumed
+//@   modifies nothing
+//@ func Server.groupDisconnectHook
+//@   assumed
+//@   requires s != nil
+//@   modifies *s.groupHooks, *s.groupObjects
+// the registries are separate containers (each created once in Serve) and hold only objects that exist
+//@ ghost macro registriesDistinct(s) = s.hooks != s.hooksOut && s.hooks != s.groupHooks && s.hooks != s.groupObjects && s.hooks != s.hookExpires && s.hooksOut != s.groupHooks && s.hooksOut != s.groupObjects && s.hooksOut != s.hookExpires && s.groupHooks != s.groupObjects && s.groupHooks != s.hookExpires && s.groupObjects != s.hookExpires && s.hookTree != s.hookCross
+//@ func Server.cmdSetHook
+//@   frame-by-effects
+//@   entry-assume registriesNonNil(s) && registriesDistinct(s) && allint(k, allocated((*s.hooks)[k]))
+//@   requires s != nil && msg != nil && len(msg.Args) > 0 && (msg._command == "" || msg._command == lower(msg.Args[0]))
+//@   modifies steps, perCall
+//@   at-return [no-stale-name] err == nil && d.updated && prevHook != nil ==> (*s.hooks)[keyOf(s.hooks, prevHook)] != prevHook || prevHook == hook
+//@   at-return [no-stale-expiry] err == nil && d.updated && prevHook != nil && prevHook.expires != 0 ==> (*s.hookExpires)[keyOf(s.hookExpires, prevHook)] != prevHook
+//@   at-return [no-stale-tree] err == nil && d.updated && prevHook != nil && prevHook.Fence != nil && prevHook.Fence.obj != nil && old(*s.hookTree)[prevHook] == 1 ==> (*s.hookTree)[prevHook] == 0
+//@   at-return [no-stale-cross] err == nil && d.updated && prevHook != nil && prevHook.Fence != nil && prevHook.Fence.obj != nil && prevHook.Fence.detect["cross"] && old(*s.hookCross)[prevHook] == 1 ==> (*s.hookCross)[prevHook] == 0
+//@   at-return [new-hook-indexed] err == nil && d.updated && hook.Fence != nil && hook.Fence.obj != nil ==> (*s.hookTree)[hook] == old(*s.hookTree)[hook] + 1 && (hook.Fence.detect["cross"] ==> (*s.hookCross)[hook] == old(*s.hookCross)[hook] + 1)
+//@   at-return [new-hook-registered] err == nil && d.updated ==> (*s.hooks)[keyOf(s.hooks, hook)] == hook
+//@   at-return [new-hook-out] err == nil && d.updated && (hook.Fence.detect == nil || hook.Fence.detect["outside"]) ==> (*s.hooksOut)[keyOf(s.hooksOut, hook)] == hook
+//@   at-return [new-hook-expiry] err == nil && d.updated && hook.expires != 0 ==> (*s.hookExpires)[keyOf(s.hookExpires, hook)] == hook
